@@ -418,7 +418,10 @@ def stepDriver (d : DSt) (op implObs : String) : DSt × String × List String :=
     if s.panicked.isSome then (d, "model-panicked:" ++ s.panicked.getD "", []) else
     let (implVerdict, impl) := splitObs implObs
     if implObs = "hang" || implObs = "dead" || implObs.startsWith "panic:" then
-      (d, "alive", [s!"C04 loop-{implObs.takeWhile (· ≠ ':')} op={toks.headD ""}"])
+      -- (when the event that wedged or killed the loop came from a peer it is C08's business as well)
+      (d, "alive", [s!"C04 loop-{implObs.takeWhile (· ≠ ':')} op={toks.headD ""}"] ++
+        (if ["msg", "peer", "disconnect", "snub", "snubclose", "dhtpeers", "dialhold"].contains (toks.headD "") then
+          [s!"C08 loop-{implObs.takeWhile (· ≠ ':')} op={toks.headD ""}"] else []))
     else
     -- stub trackers: mode changes; whether a stop that happens now would wait for a silent tracker
     let trk : TrkSt :=
